@@ -88,6 +88,8 @@ def execute(obj, cls, op, args, form, mutating, with_grp):
         blk = build(cls, args["blk"], with_grp)
         if args.get("raw"):
             vals = raw_rows(args["blk"]); kw = {"taxa": blk.taxa}
+            if not np.isnan(vals).any() and args.get("rawdtype"):
+                vals = vals.astype(args["rawdtype"])       # whole-number raw values handed over in an integer / float32 array
             if with_grp:
                 kw["taxa_grp"] = blk.taxa_grp
         else:
@@ -148,6 +150,8 @@ def run(ctx):
                 args = pick_args(op, n, rng)
                 if args is None:
                     continue
+                if args.get("raw"):
+                    args["rawdtype"] = rng.choice([None, "int64", "int32", "float32"])
                 results = []
                 for form in ("specific", rng.choice(["generic+", "generic-"])):
                     for mut in ([False, True] if op in lm.MUT else [op in ("reorder", "sort", "group")]):
